@@ -29,11 +29,12 @@ CONFIGS = {
     # main functional build: VERIFY + ASan + UBSan, production table sizes, asm, native int128
     "san": _cfg("gcc", ["-O2", "-g"], STD + ["-DUSE_ASM_X86_64=1", "-DVERIFY"], SAN),
     # production code paths (no VERIFY): restrict active, no verify side effects
-    "san_nv": _cfg("gcc", ["-O2", "-g"], STD + ["-DUSE_ASM_X86_64=1"], SAN),
+    # (22 KiB generator table: together with san = 86 KiB and mx_i64 = 2 KiB every check that runs these three sees every comb layout)
+    "san_nv": _cfg("gcc", ["-O2", "-g"], ["-DCOMB_BLOCKS=11", "-DCOMB_TEETH=6", "-DECMULT_WINDOW_SIZE=15", "-DUSE_ASM_X86_64=1"], SAN),
     # configuration matrix
-    "mx_i64": _cfg("gcc", ["-O2", "-g"], ["-DCOMB_BLOCKS=11", "-DCOMB_TEETH=6", "-DECMULT_WINDOW_SIZE=8",
+    "mx_i64": _cfg("gcc", ["-O2", "-g"], ["-DCOMB_BLOCKS=2", "-DCOMB_TEETH=5", "-DECMULT_WINDOW_SIZE=8",
                                            "-DUSE_FORCE_WIDEMUL_INT64=1", "-DVERIFY"], SAN),
-    "mx_i64_nv": _cfg("gcc", ["-O2", "-g"], ["-DCOMB_BLOCKS=2", "-DCOMB_TEETH=5", "-DECMULT_WINDOW_SIZE=2",
+    "mx_i64_nv": _cfg("gcc", ["-O2", "-g"], ["-DCOMB_BLOCKS=11", "-DCOMB_TEETH=6", "-DECMULT_WINDOW_SIZE=2",
                                               "-DUSE_FORCE_WIDEMUL_INT64=1"], SAN),
     "mx_i128s": _cfg("gcc", ["-O2", "-g"], ["-DCOMB_BLOCKS=11", "-DCOMB_TEETH=6", "-DECMULT_WINDOW_SIZE=15",
                                              "-DUSE_FORCE_WIDEMUL_INT128_STRUCT=1", "-DVERIFY"], SAN),
